@@ -38,7 +38,9 @@ def run_cases(chk: Check, fn_mod: str, fn_name: str, names, spec_for, jobs: int 
             n = futs[f]
             try:
                 results[n] = f.result()
-            except Exception as e:  # worker crashed
+            except (KeyboardInterrupt, SystemExit):
+                raise
+            except BaseException as e:  # worker crashed
                 results[n] = {"name": n, "harness": [f"{n}: worker failed: {type(e).__name__}: {e}"]}
     for n in names:
         merge(chk, results[n])
